@@ -2221,3 +2221,120 @@ Proof.
       split; [reflexivity|]. eapply inv_frame; [exact Hinv | | | | | |]; simpl; auto.
     + split; [reflexivity | exact Hinv].
 Qed.
+
+(* ================================================================== *)
+(** * 8. The listen endpoint (bound address) *)
+(* ================================================================== *)
+
+(* listen() records exactly the endpoint it was given *)
+Theorem listen_sets_endpoint : forall s ep s',
+  tcp_listen s ep = Ok s' -> s_listen_endpoint s' = ep /\ s_state s' = Listen.
+Proof.
+  intros s ep s' H. unfold tcp_listen in H.
+  destruct (le_port ep =? 0); [discriminate H|].
+  destruct (tcp_is_open s).
+  - destruct (tcp_state_eqb (s_state s) Listen) eqn:E1; simpl in H; [|discriminate H].
+    destruct (listen_endpoint_eqb (s_listen_endpoint s) ep) eqn:E2; inv H.
+    split; [|destruct (s_state s'); simpl in E1; congruence].
+    unfold listen_endpoint_eqb, opt_eqb in E2.
+    destruct (s_listen_endpoint s') as [a p], ep as [a' p']; simpl in *.
+    apply andb_prop in E2. destruct E2 as [Ea Ep].
+    apply Z.eqb_eq in Ep. subst.
+    destruct a, a'; try discriminate Ea; try reflexivity. apply Z.eqb_eq in Ea. subst. reflexivity.
+  - inv H. simpl. auto.
+Qed.
+
+(* processing a segment never changes the listen endpoint: in particular the RST that returns a
+   half-open connection to LISTEN restores exactly the endpoint (address AND port) given to listen(),
+   and leaves no tuple behind *)
+Lemma process_keeps_listen_endpoint : forall cx s ip r s' rep tags,
+  wf_repr r -> tcp_process cx s ip r = Ok (s', rep, tags) ->
+  s_listen_endpoint s' = s_listen_endpoint s /\
+  (s_state s = SynReceived -> s_state s' = Listen -> s_tuple s' = None).
+Proof.
+  intros cx s ip r s' rep tags Hwf H. unfold tcp_process in H.
+  destruct (tcp_accepts s ip r); [|discriminate H]. simpl in H. unfold obind in H.
+  destruct (tcp_process_ack_check cx s ip r) as [p1| |] eqn:E1; try discriminate H.
+  destruct p1 as [t1 u | t1 s1 rep1].
+  2:{ inv H. apply ack_check_ret in E1. destruct E1 as (Hc & _ & E & _). unfold core in Hc. inversion Hc.
+      split; [exact E | intros; congruence]. }
+  destruct (tcp_process_window cx s ip r) as [p2| |] eqn:E2; try discriminate H.
+  destruct p2 as [t2 [[s2 payload] off] | t2 s2 rep2].
+  2:{ inv H. apply window_ret in E2. destruct E2 as [(A1 & _ & _ & _ & _ & A6 & _) _].
+      split; [exact A6 | intros; congruence]. }
+  apply window_cont in E2; [|exact Hwf]. destruct E2 as [Hs2 _].
+  assert (K : s_listen_endpoint s2 = s_listen_endpoint s /\ s_state s2 = s_state s /\
+              tcp_reset s2 = tcp_reset s2).
+  { destruct Hs2 as [->| ->]; simpl; auto. }
+  destruct K as (K1 & K2 & _).
+  destruct (tcp_process_ack_len s2 r) as [[[al aof] aall]| |] eqn:E3; try discriminate H.
+  destruct (tcp_process_transition cx s2 ip r (tcp_process_quash s2 r) al aof) as [p3| |] eqn:E4;
+    try discriminate H.
+  destruct p3 as [t3 s3 | t3 s3 rep3].
+  - destruct (tcp_process_update_remote cx s3 r al) as [[s4 iwu]| |] eqn:E5; try discriminate H.
+    destruct (tcp_process_dup_ack cx s4 r al iwu) as [[s5 t5]| |] eqn:E6; try discriminate H.
+    destruct (tcp_process_timers cx _ al aall) as [s6 t6] eqn:E7.
+    destruct (tcp_process_zwp cx s6 al) as [s7 t7] eqn:E8.
+    destruct (tcp_process_payload cx s7 ip r payload off) as [[[s8 rep8] t8]| |] eqn:E9; try discriminate H.
+    inv H.
+    apply transition_cont in E4. destruct E4 as (Htr & (_ & B2 & _ & _) & _).
+    apply update_remote_spec in E5. destruct E5 as (C1 & _ & _ & _ & C5 & _).
+    apply dup_ack_spec in E6. destruct E6 as (D1 & _ & D3 & _).
+    apply timers_spec in E7. destruct E7 as (((F1 & _ & _ & _ & _ & F6 & _) & _) & _).
+    apply zwp_spec in E8. destruct E8 as (((G1 & _ & _ & _ & _ & G6 & _) & _) & _).
+    apply payload_spec in E9. destruct E9 as (((I1 & _ & _ & _ & _ & I6 & _) & _) & _).
+    assert (Hts : forall sx, s_listen_endpoint
+                    (match r_timestamp r with Some (tsval, _) => upd_last_remote_tsval sx tsval | None => sx end)
+                    = s_listen_endpoint sx /\
+                  s_state (match r_timestamp r with Some (tsval, _) => upd_last_remote_tsval sx tsval | None => sx end)
+                    = s_state sx).
+    { intros sx. destruct (r_timestamp r) as [[a b]|]; simpl; auto. }
+    destruct (Hts s5) as [T1 T2].
+    split; [congruence|].
+    intros Es Es'. exfalso.
+    assert (E8s : s_state s' = s_state s3) by congruence.
+    unfold trans_rel in Htr. rewrite K2, Es in Htr. rewrite E8s in Es'. rewrite Es' in Htr.
+    intuition congruence.
+  - inv H. apply transition_ret in E4.
+    destruct E4 as [((A1 & _ & _ & _ & _ & A6 & _) & _) | [(_ & _ & _ & _ & (_ & B2 & _) & B3 & B4) | (_ & _ & _ & ->)]].
+    + split; [congruence | intros; congruence].
+    + split; [congruence | intros _ E; congruence].
+    + simpl. split; [exact K1 | intros _ _; destruct (reset_spec s2) as (_ & _ & _ & _ & _ & R6 & _); exact R6].
+Qed.
+
+Theorem segment_keeps_listen_endpoint : forall cx s ip r s' out tags,
+  wf_repr r -> tcp_step cx s (EvSegment ip r) = Ok (s', out, tags) ->
+  s_listen_endpoint s' = s_listen_endpoint s /\
+  (s_state s = SynReceived -> s_state s' = Listen -> s_tuple s' = None).
+Proof.
+  intros cx s ip r s' out tags Hwf H. simpl in H. unfold obind in H.
+  destruct (iface_tcp_ingress cx s ip r) as [[[s1 reply] tg]| |] eqn:E; inv H.
+  unfold iface_tcp_ingress in E.
+  destruct ((ip_src ip =? 0) || (ip_dst ip =? 0)); [inv E; split; [reflexivity | intros; congruence]|].
+  destruct ((r_src_port r =? 0) || (r_dst_port r =? 0)); [inv E; split; [reflexivity | intros; congruence]|].
+  destruct (tcp_accepts s ip r).
+  - eapply process_keeps_listen_endpoint; eassumption.
+  - destruct (control_eqb (r_control r) CRst); [inv E; split; [reflexivity | intros; congruence]|].
+    unfold obind in E. destruct (tcp_rst_reply ip r); inv E. split; [reflexivity | intros; congruence].
+Qed.
+
+(* a listener bound to address a is blind to segments addressed elsewhere: the socket is untouched
+   (the interface answers a non-RST segment with an RST from the address it was sent to) *)
+Theorem bound_listener_ignores_other_address : forall cx s ip r a s' out tags,
+  s_state s = Listen -> s_tuple s = None -> le_addr (s_listen_endpoint s) = Some a ->
+  ip_dst ip <> a ->
+  tcp_step cx s (EvSegment ip r) = Ok (s', out, tags) -> s' = s.
+Proof.
+  intros cx s ip r a s' out tags Es Et Ea Hd H. simpl in H. unfold obind in H.
+  destruct (iface_tcp_ingress cx s ip r) as [[[s1 reply] tg]| |] eqn:E; inv H.
+  unfold iface_tcp_ingress in E.
+  destruct ((ip_src ip =? 0) || (ip_dst ip =? 0)); [inv E; reflexivity|].
+  destruct ((r_src_port r =? 0) || (r_dst_port r =? 0)); [inv E; reflexivity|].
+  assert (Hacc : tcp_accepts s ip r = false).
+  { unfold tcp_accepts. rewrite Es, Et, Ea. simpl.
+    destruct (is_some (r_ack_number r) || control_eqb (r_control r) CRst); [reflexivity|].
+    destruct (Z.eqb_spec (ip_dst ip) a); [contradiction | reflexivity]. }
+  rewrite Hacc in E.
+  destruct (control_eqb (r_control r) CRst); [inv E; reflexivity|].
+  unfold obind in E. destruct (tcp_rst_reply ip r); inv E. reflexivity.
+Qed.
